@@ -55,10 +55,52 @@ func genBuildBase(p *PRNG, n int) []*Case {
 			files["root.jst"] = []byte(RenderTree(tree, l))
 			add(buildCase("rendered-split", files, "root.jst"))
 		default:
-			add(singleBuild("special", []byte(Pick(p, specialDocs))))
+			if p.Chance(1, 2) {
+				add(singleBuild("special", []byte(Pick(p, specialDocs))))
+			} else {
+				add(singleBuild("path-rules", []byte(pathRuleDoc(p))))
+			}
 		}
 	}
 	return cases
+}
+
+// pathRuleDoc: paths with one to three parameters, a Path directive that describes some of them
+// (at the method or at the URL), and sometimes an example that violates its own rule or a reference
+// to a missing type: documents that must either be refused by the build or serialise
+func pathRuleDoc(p *PRNG) string {
+	params := []string{"id", "item", "n"}[:1+p.Intn(3)]
+	path := ""
+	for i, q := range params {
+		path += fmt.Sprintf("/s%d/{%s}", i, q)
+	}
+	var described []string
+	for _, q := range params {
+		if p.Chance(2, 3) {
+			described = append(described, q)
+		}
+	}
+	if len(described) == 0 {
+		described = params[:1]
+	}
+	var props []string
+	for _, q := range described {
+		switch p.Intn(6) {
+		case 0:
+			props = append(props, fmt.Sprintf("    \"%s\": 5 // {min: 10}", q))
+		case 1:
+			props = append(props, fmt.Sprintf("    \"%s\": \"A-1\" // {maxLength: 2}", q))
+		case 2:
+			props = append(props, fmt.Sprintf("    \"%s\": 1 // {type: \"@nope\"}", q))
+		default:
+			props = append(props, fmt.Sprintf("    \"%s\": 1", q))
+		}
+	}
+	body := "  {\n" + strings.Join(props, ",\n") + "\n  }\n"
+	if p.Chance(1, 2) {
+		return "JSIGHT 0.3\nGET " + path + "\n  Path\n" + body + "  200 any\n"
+	}
+	return "JSIGHT 0.3\nURL " + path + "\n  Path\n" + body + "  GET\n    200 any\n  DELETE\n    200 any\n"
 }
 
 // documents aimed at notations / constructs the random model rarely combines
@@ -254,24 +296,45 @@ func genAccessCases(p *PRNG, n int, tier string) []*Case {
 		}
 	}
 	rec("")
-	docs := n/len(seqs) + 1
+	// a few documents get every sequence; many documents get the sequences in which one accessor
+	// runs between two calls of another (what a shared cache or an in-place edit would disturb)
+	// plus some random ones
+	keySeqs := []string{"jj", "ii", "oo", "pp", "jij", "joj", "jpj", "iji", "ioi", "ipi", "ojo", "oio", "pjp", "jojo", "ojij", "jtj", "oto"}
+	exhaustiveDocs := 2
+	perDoc := len(keySeqs) + 6
+	docs := exhaustiveDocs + (n-exhaustiveDocs*len(seqs))/perDoc
+	if docs < exhaustiveDocs+20 {
+		docs = exhaustiveDocs + 20
+	}
 	var cases []*Case
 	for d := 0; d < docs; d++ {
 		var data []byte
 		switch d % 3 {
 		case 0:
-			data = []byte(specialDocs[(d/3)%18])
+			data = []byte(specialDocs[(d/3)%len(specialDocs)])
 		default:
 			m := GenModel(p.Fork(), 1+p.Intn(3))
 			// make sure regex types and references to them occur: they are what makes generation stateful
 			m.Types = append(m.Types, MType{Name: "rxT", S: Schema{Notation: "regex", Body: "/[a-z]{2,4}/"}})
 			if len(m.Resources) > 0 && len(m.Resources[0].Methods) > 0 {
 				mm := &m.Resources[0].Methods[0]
-				mm.Responses = append(mm.Responses, MResponse{Code: "418", Body: Schema{Notation: "jsight", Body: "{\n  \"r\": @rxT\n}"}})
+				extra := MResponse{Code: Pick(p, []string{"418", "100", "203"}), Body: Schema{Notation: "jsight", Body: "{\n  \"r\": @rxT\n}"}}
+				if p.Chance(1, 2) {
+					mm.Responses = append(mm.Responses, extra)
+				} else {
+					mm.Responses = append([]MResponse{extra}, mm.Responses...)
+				}
 			}
 			data = []byte(RenderModel(m, RandomLayout(p.Fork())))
 		}
-		for _, s := range seqs {
+		use := seqs
+		if d >= exhaustiveDocs {
+			use = append([]string{}, keySeqs...)
+			for k := 0; k < 6; k++ {
+				use = append(use, Pick(p, seqs))
+			}
+		}
+		for _, s := range use {
 			c := singleBuild("access", data)
 			c.Args = []string{"build", "", s}
 			c.ID = len(cases)
